@@ -1,5 +1,6 @@
 //! Main program configuration.
 
+use std::cmp::min;
 use std::collections::HashMap;
 use std::ffi::{OsStr, OsString};
 use std::fmt::{Display, Formatter};
@@ -9,7 +10,7 @@ use std::path::PathBuf;
 use std::str::FromStr;
 use std::sync::Arc;
 
-use chrono::{DateTime, FixedOffset, Local, TimeZone};
+use chrono::{DateTime, FixedOffset, Local, LocalResult, TimeZone};
 use clap::builder::{TypedValueParser, ValueParserFactory};
 
 use clap::{command, Arg, Error};
@@ -101,19 +102,43 @@ impl ValueParserFactory for Path {
 fn parse_date_time(s: &str) -> Result<DateTime<FixedOffset>, String> {
     // The parsed date and time are the wall clock time in the given (or the local) time zone.
     // If that time exists twice, when the clocks are turned back, the earlier one is the safe limit.
+    fn earlier<T: TimeZone>(time: LocalResult<DateTime<T>>) -> Option<DateTime<T>> {
+        match time {
+            LocalResult::Single(t) => Some(t),
+            LocalResult::Ambiguous(t1, t2) => Some(min(t1, t2)),
+            LocalResult::None => None,
+        }
+    }
     let not_a_time = || format!("Failed to parse {s} as date: no such time in the time zone");
     match dtparse::parse(s) {
-        Ok((dt, Some(offset))) => offset
-            .from_local_datetime(&dt)
-            .earliest()
-            .ok_or_else(not_a_time),
-        Ok((dt, None)) => Local
-            .from_local_datetime(&dt)
-            .earliest()
-            .map(|t| t.fixed_offset())
-            .ok_or_else(not_a_time),
+        Ok((dt, Some(offset))) => earlier(offset.from_local_datetime(&dt)).ok_or_else(not_a_time),
+        Ok((dt, None)) => {
+            // The parser accepts the name of a time zone it doesn't know, and ignores it.
+            // Taking such a time for the local time could be wrong by many hours.
+            if let Some(zone) = s.split_whitespace().find(|word| is_time_zone_name(word)) {
+                return Err(format!(
+                    "Failed to parse {s} as date: unknown time zone {zone}, \
+                     give the offset from UTC instead, e.g. +02:00"
+                ));
+            }
+            earlier(Local.from_local_datetime(&dt))
+                .map(|t| t.fixed_offset())
+                .ok_or_else(not_a_time)
+        }
         Err(e) => Err(format!("Failed to parse {s} as date: {e}")),
     }
+}
+
+/// Returns true if the word looks like an abbreviated name of a time zone, e.g. CEST or JST.
+fn is_time_zone_name(word: &str) -> bool {
+    const NOT_ZONES: [&str; 21] = [
+        "JAN", "FEB", "MAR", "APR", "MAY", "JUN", "JUL", "AUG", "SEP", "SEPT", "OCT", "NOV", "DEC",
+        "MON", "TUE", "TUES", "WED", "THU", "THUR", "FRI", "SAT",
+    ];
+    (3..=5).contains(&word.len())
+        && word.chars().all(|c| c.is_ascii_uppercase())
+        && word != "SUN"
+        && !NOT_ZONES.contains(&word)
 }
 
 /// Parses string with format: `<device>:<seq parallelism>[,<rand parallelism>]`
